@@ -853,6 +853,34 @@ func (g *Gen) scenarios() []intent {
 		})
 	}
 	if c.has("auth") && c.Sms {
+		// two SMS accounts in one browser: A's code is sent, V's login inside the resend limit sends nothing, later a
+		// resend for V meets a gateway (or storage) fault - whatever that leaves in the session, A's code must not
+		// complete V's login
+		add(boost(2, "twofactor"), func() []SymStep {
+			var us []string
+			for _, n := range g.names {
+				if a, ok := g.r.acc[n]; ok {
+					if usr, ok := g.r.w.st.users[a.PID]; ok && usr.SMSPhoneNumber != "" {
+						us = append(us, n)
+					}
+				}
+			}
+			if len(us) < 2 {
+				return nil
+			}
+			i := g.rng.Intn(len(us))
+			a, v := us[i], us[(i+1+g.rng.Intn(len(us)-1))%len(us)]
+			b := g.browser()
+			resend := g.req(b, "POST", "SmsValidate", nil)
+			resend.Faults = map[int]string{g.rng.Intn(2): pickS(g.rng, "generic", "generic", "notfound")}
+			out := []SymStep{g.loginStep(b, a, Desc{K: "pw", U: a}, false), {Kind: "tick", D: int64(1 + g.rng.Intn(4))},
+				g.loginStep(b, v, Desc{K: "pw", U: v}, false), {Kind: "tick", D: 12}, resend}
+			if g.rng.Intn(3) == 0 {
+				out = append(out, g.req(b, "POST", "SmsValidate", nil)) // and perhaps one that goes through
+			}
+			return append(out, g.req(b, "POST", "SmsValidate", []KV{{"code", Desc{K: "sessval", B: b, V: "sms_secret"}}}),
+				g.req(b, "POST", "SmsValidate", []KV{{"code", Desc{K: "smscode", I: g.rng.Intn(2)}}}))
+		})
 		// a logged-in account with SMS 2FA starts enrolling ANOTHER number, then uses that code elsewhere
 		add(boost(2, "twofactor"), func() []SymStep {
 			var u string
@@ -1103,6 +1131,21 @@ func (g *Gen) scenarios() []intent {
 			return out
 		})
 	}
+	if c.has("oauth2") {
+		// an abandoned attempt (with remember-me and a return target), then a fresh start WITHOUT any parameter and its
+		// callback: the second flow must not inherit what the first one asked for
+		add(boost(2, "oauth2", "remember"), func() []SymStep {
+			b := g.browser()
+			prov := pickS(g.rng, c.Providers...)
+			st1 := SymStep{Kind: "req", Req: &SymReq{Browser: b, Method: "GET", Route: "OAuthStart", Arg: prov,
+				Query: []KV{{"rm", lit("true")}, {"redir", lit("/first")}}}}
+			st2 := SymStep{Kind: "req", Req: &SymReq{Browser: b, Method: "GET", Route: "OAuthStart", Arg: pickS(g.rng, c.Providers...)}}
+			pa := &ProviderAnswer{ExchangeOK: true, DetailsOK: true, UID: pickS(g.rng, "100", "300"), Email: "o@x.io", Token: "tokB"}
+			cb := SymStep{Kind: "req", Req: &SymReq{Browser: b, Method: "GET", Route: "OAuthCallback", Arg: st2.Req.Arg,
+				Query: []KV{{"state", Desc{K: "sessval", B: b, V: "oauth2_state"}}, {"code", lit("c")}}}, PA: pa}
+			return []SymStep{st1, st2, cb, cb}
+		})
+	}
 	if c.has("oauth2") && (c.has("lock") || c.has("confirm")) {
 		// an OAuth2 account that exists, is then locked (or has its confirmation restarted), and comes back through
 		// the provider
@@ -1298,6 +1341,22 @@ func (g *Gen) scenarios() []intent {
 		})
 	}
 	if c.has("auth") {
+		// the account gets a password of exactly 72 bytes (all that bcrypt reads), then a "change" to that password plus
+		// a suffix (administrative update or recovery link) - which cannot be stored faithfully and must be refused -,
+		// then the 72-byte password is tried: it is the current password iff the change was refused
+		add(boost(1, "password", "tokens", "general"), func() []SymStep {
+			u := g.known()
+			b := g.browser()
+			p72, p78 := Desc{K: "pw72", U: u}, Desc{K: "pw78", U: u}
+			out := []SymStep{{Kind: "updpw", U: u, PW: &p72}}
+			if c.has("recover") && g.rng.Intn(2) == 0 {
+				out = append(out, g.req(b, "POST", "RecoverStart", []KV{{g.pidField(), Desc{K: "pid", U: u}}}),
+					g.req(b, "POST", "RecoverEnd", []KV{{"token", Desc{K: "mailtok", U: u, Kind: "recover"}}, {"password", p78}, {"confirm_password", p78}}))
+			} else {
+				out = append(out, SymStep{Kind: "updpw", U: u, PW: &p78})
+			}
+			return append(out, SymStep{Kind: "dropsess", U: b}, g.loginStep(b, u, p72, false))
+		})
 		// a browser that is logged in as one account submits another account's identifier with its OWN
 		// password (and then with the right one)
 		add(boost(2, "general", "remember"), func() []SymStep {
